@@ -181,8 +181,8 @@ def run(tier, seed, replay=None):
     quick = tier == "quick"
     n_tk = 50 if quick else 600
     budget = dict(corr=300 if quick else 5000,      # functional correspondence + refinement
-                  oracle=90 if quick else 1200,    # + meaning of the export
-                  roundtrip=55 if quick else 620,  # + import of the export
+                  oracle=75 if quick else 1200,    # + meaning of the export
+                  roundtrip=45 if quick else 620,  # + import of the export
                   backend=30 if quick else 300,     # + eval / get_counts through the exact backend
                   chain=24 if quick else 200,       # circuits of ps_chain_prefix (meaning of the export for all)
                   chain_full=8 if quick else 40,    # ... of which with import and backend
